@@ -2,6 +2,7 @@
 import common
 import enccommon
 import gen
+import corpus
 import refdec
 from enccommon import model_line, canon_impl, ints
 
@@ -19,6 +20,7 @@ def gen_cases(rng, tier, ctx):
     cs = gen.encoder_cases(rng, tier, n)
     cs += gen.boundary_cases(rng, tier, per_cap=2 if tier == 'quick' else 6)
     cs += gen.constant_cases(rng, tier)
+    cs += corpus.encoder_cases()
     cs += gen.prefix_cases(rng, tier)
     # padding sweep
     for i in range(48):
